@@ -28,6 +28,11 @@ pub enum Op {
     TryExtend(Vec<u8>, bool),
     /// plain iterator whose size_hint is a loose upper bound: (0, Some(len + 40)) -- as `filter` gives
     TryExtendLoose(Vec<u8>),
+    /// the slice entry point of `TryExtend` (a provided trait method unless the stack overrides it)
+    TryExtendSlice(Vec<u8>),
+    /// `push_many` with an exact-size iterator of `usize::MAX - k` items that is never meant to be consumed:
+    /// applied only when the stack holds more than k elements, so that present + supplied does not fit in `usize`
+    PushManyHuge(usize),
     SetMax(usize),
     Size,
     IsEmpty,
@@ -49,6 +54,8 @@ fn op_to_json(op: &Op) -> Value {
         Op::PushMany(l) => json!({"op":"push_many","list":l}),
         Op::TryExtend(l, h) => json!({"op":"try_extend","list":l,"lying_hint":h}),
         Op::TryExtendLoose(l) => json!({"op":"try_extend_loose","list":l}),
+        Op::TryExtendSlice(l) => json!({"op":"try_extend_from_slice","list":l}),
+        Op::PushManyHuge(k) => json!({"op":"push_many_huge","k":k}),
         Op::SetMax(c) => json!({"op":"set_max","c":c.to_string()}),
         Op::Size => json!({"op":"size"}),
         Op::IsEmpty => json!({"op":"is_empty"}),
@@ -76,6 +83,8 @@ fn op_from_json(v: &Value) -> Option<Op> {
         "push_many" => Op::PushMany(list()),
         "try_extend" => Op::TryExtend(list(), v["lying_hint"].as_bool()?),
         "try_extend_loose" => Op::TryExtendLoose(list()),
+        "try_extend_from_slice" => Op::TryExtendSlice(list()),
+        "push_many_huge" => Op::PushManyHuge(v["k"].as_u64()? as usize),
         "set_max" => Op::SetMax(v["c"].as_str()?.parse().ok()?),
         "size" => Op::Size,
         "is_empty" => Op::IsEmpty,
@@ -165,6 +174,15 @@ pub fn apply_real(s: &mut Stack<u8>, op: &Op) -> Ret {
             };
             s.try_extend(&mut it).map(|()| Ret::Unit)
         }
+        Op::TryExtendSlice(l) => s.try_extend_from_slice(l).map(|()| Ret::Unit),
+        Op::PushManyHuge(k) => {
+            if s.size() <= *k {
+                // (present + supplied would fit in usize: a stack with an unlimited maximum would really be asked to take the items)
+                Ok(Ret::Overflow)
+            } else {
+                s.push_many((0..usize::MAX - k).map(|_| 0u8)).map(|()| Ret::Unit)
+            }
+        }
         Op::SetMax(c) => {
             s.set_max_stack_size(*c);
             Ok(Ret::Unit)
@@ -246,7 +264,8 @@ pub fn apply_ref(vals: &[u8], max: usize, op: &Op) -> Vec<(Ret, Vec<u8>, usize)>
                 )]
             }
         }
-        Op::PushMany(l) | Op::TryExtend(l, _) | Op::TryExtendLoose(l) => insert(l),
+        Op::PushMany(l) | Op::TryExtend(l, _) | Op::TryExtendLoose(l) | Op::TryExtendSlice(l) => insert(l),
+        Op::PushManyHuge(_) => vec![(Ret::Overflow, same(), max)],
         Op::SetMax(c) => vec![(Ret::Unit, same(), *c)],
         Op::Size => vec![(Ret::Num(n), same(), max)],
         Op::IsEmpty => vec![(Ret::Bool(n == 0), same(), max)],
@@ -320,10 +339,13 @@ impl StackModel {
             ops.push(Op::Discard(k));
         }
         ops.push(Op::Discard(usize::MAX));
+        ops.push(Op::PushManyHuge(0));
+        ops.push(Op::PushManyHuge(2));
         for l in lists(&self.values, self.bulk_len) {
             ops.push(Op::PushMany(l.clone()));
             ops.push(Op::TryExtend(l.clone(), false));
             ops.push(Op::TryExtendLoose(l.clone()));
+            ops.push(Op::TryExtendSlice(l.clone()));
             ops.push(Op::TryExtend(l, true));
         }
         for c in &self.caps {
@@ -348,6 +370,8 @@ fn kind_of(op: &Op, r: &Ret) -> String {
         Op::TryExtend(_, false) => "try_extend",
         Op::TryExtend(_, true) => "try_extend(lying hint)",
         Op::TryExtendLoose(_) => "try_extend(loose hint)",
+        Op::TryExtendSlice(_) => "try_extend_from_slice",
+        Op::PushManyHuge(_) => "push_many(huge exact-size iterator)",
         Op::SetMax(_) => "set_max",
         Op::Size => "size",
         Op::IsEmpty => "is_empty",
@@ -394,7 +418,7 @@ fn step_inner(pre: &Stack<u8>, op: &Op) -> (Stack<u8>, Ret, Option<String>) {
         ));
     }
     // intrinsic invariants, independent of the reference
-    let inserting = matches!(op, Op::Push(_) | Op::PushMany(_) | Op::TryExtend(..) | Op::TryExtendLoose(_));
+    let inserting = matches!(op, Op::Push(_) | Op::PushMany(_) | Op::TryExtend(..) | Op::TryExtendLoose(_) | Op::TryExtendSlice(_) | Op::PushManyHuge(_));
     let ok = matches!(ret, Ret::Unit);
     if problem.is_none() && inserting && ok && post_vals.len() > vals.len() && post_vals.len() > post_max
     {
@@ -435,7 +459,8 @@ impl Model for StackModel {
         for op in self.all_ops() {
             let grow = match &op {
                 Op::Push(_) => 1,
-                Op::PushMany(l) | Op::TryExtend(l, _) | Op::TryExtendLoose(l) => l.len(),
+                Op::PushMany(l) | Op::TryExtend(l, _) | Op::TryExtendLoose(l) | Op::TryExtendSlice(l) => l.len(),
+                Op::PushManyHuge(_) => 0,
                 _ => 0,
             };
             // keep the state space finite: contents never grow beyond max_len
@@ -553,6 +578,14 @@ fn apply_wide(s: &mut Stack<Wide>, op: &Op) -> Ret {
             let mut it = It(l.iter().map(|v| wide(*v)).collect::<Vec<_>>().into_iter(), false);
             s.try_extend(&mut it).map(|()| Ret::Unit)
         }
+        Op::TryExtendSlice(l) => s.try_extend_from_slice(&l.iter().map(|v| wide(*v)).collect::<Vec<_>>()).map(|()| Ret::Unit),
+        Op::PushManyHuge(k) => {
+            if s.size() <= *k {
+                Ok(Ret::Overflow)
+            } else {
+                s.push_many((0..usize::MAX - k).map(|_| wide(0))).map(|()| Ret::Unit)
+            }
+        }
         Op::SetMax(c) => {
             s.set_max_stack_size(*c);
             Ok(Ret::Unit)
@@ -576,8 +609,10 @@ fn wide_twin(run: &mut Run) -> u64 {
     for l in [vec![3u8, 4], vec![5, 6, 7]] {
         alpha.push(Op::PushMany(l.clone()));
         alpha.push(Op::TryExtend(l.clone(), false));
+        alpha.push(Op::TryExtendSlice(l.clone()));
         alpha.push(Op::TryExtend(l, true));
     }
+    alpha.push(Op::PushManyHuge(1));
     for c in [0usize, 1, 2, 3, usize::MAX] {
         alpha.push(Op::SetMax(c));
     }
@@ -659,6 +694,7 @@ fn long_stacks(run: &mut Run) -> u64 {
                 ops.push(Op::PushMany(l.clone()));
                 ops.push(Op::TryExtend(l.clone(), false));
                 ops.push(Op::TryExtendLoose(l.clone()));
+                ops.push(Op::TryExtendSlice(l.clone()));
                 ops.push(Op::TryExtend(l, true));
             }
             for c in [0usize, 255, 256, 257, len, len + 1] {
